@@ -975,6 +975,14 @@ func (c *Client) backwards(
 		verifiedHeader = interimHeader
 	}
 
+	// The hash chain was followed down to a header of the target height that was fetched
+	// again from the primary: it has to be the header we were asked to verify, which is the
+	// one that gets stored.
+	if !bytes.Equal(verifiedHeader.Hash(), newHeader.Hash()) {
+		return ErrInvalidHeader{fmt.Errorf("header at height %d (%X) is not the one linked from the trusted chain (%X)",
+			newHeader.Height, newHeader.Hash(), verifiedHeader.Hash())}
+	}
+
 	return nil
 }
 
